@@ -53,8 +53,10 @@ def _stale_bak(rng, files, target, original):
         # the simulated tree, the same modification time)
         files[target + ".bak"] = "#" * len(original)
         return "same-size"
-    files[target + ".bak"] = ""
-    return "empty"
+    if roll < 0.965:
+        files[target + ".bak"] = ""
+        return "empty"
+    return "directory"      # the caller registers <target>.bak as a directory
 
 
 def _bystanders(rng, files):
@@ -288,8 +290,18 @@ def gen_set(rng, label=None, backup=None, docgen_opts=None):
     if backup:
         argv.append("-b")
     stale = "n/a"
+    dirs = []
+    if target in files and rng.random() < 0.08 and label is None:
+        # Windows line endings: still the user's bytes, to be kept exactly
+        files[target] = files[target].replace("\n", "\r\n")
+        meta["crlf"] = True
     if target in files:
         stale = _stale_bak(rng, files, target, files[target])
+        if stale == "directory":
+            dirs.append(target + ".bak")
+            if backup and label is None:
+                # the backup cannot be made: a failure before writing
+                meta["label"] = "bak-is-a-directory"
     meta["stale_bak"] = stale
     if rng.random() < 0.15:
         argv.append(rng.choice(["-v", "-d", "-q"]))
@@ -306,7 +318,7 @@ def gen_set(rng, label=None, backup=None, docgen_opts=None):
         argv.append(target)
     return {
         "tool": "yaml-set", "argv": argv, "files": files,
-        "unreadable": unreadable, "dirs": [], "stdin": stdin, "tty": tty,
+        "unreadable": unreadable, "dirs": dirs, "stdin": stdin, "tty": tty,
         "stdin_chunks": None, "knobs": gen_knobs(rng), "peer": None,
         "secrets_seed": rng.randrange(1, 1 << 30), "meta": meta,
         "model": doc if label is None else None,
@@ -427,6 +439,10 @@ def gen_merge(rng, label=None, backup=None, mode=None):
         argv.append("-b")
         meta["backup"] = True
         meta["stale_bak"] = _stale_bak(rng, files, out, files[out])
+        if meta["stale_bak"] == "directory":
+            dirs.append(out + ".bak")
+            if label is None:
+                meta["label"] = "bak-is-a-directory"
     if label == "backup-without-overwrite":
         argv.append("-b")
     if label == "backup-of-missing-target":
@@ -681,6 +697,9 @@ class SecretDocGen:
             # collection that is actually referenced
             user = {"t": "m", "a": None, "merge": ["defaults"],
                     "i": [[gd.S("extra"), gd.S("x")]]}
+            if rng.random() < 0.5:
+                # a key of its own that overrides the merged one
+                user["i"].append([gd.S("primary"), sec()])
             if doc["t"] == "m":
                 doc["i"].append([gd.S("defaults"), shared])
                 doc["i"].append([gd.S("prod"), user])
